@@ -13,7 +13,7 @@ from mzverif.core import Failure, Stats, Sub, Violation, call, require
 
 ID = "C09"
 LEVEL = "exploration"
-TECHNIQUE = "metamorphic pairs (copy / single-bit / single-cell / kind / shape / dtype / metadata mutations) compared with a structural-equality oracle; exhaustive endpoint-coordinate grid for constructor bounds (random ones also after earlier operations that failed: damaged loads, rejected constructions / drawings / token streams); mazes hashed in other interpreters and shipped here; Hypothesis dataset pairs"
+TECHNIQUE = "metamorphic pairs (copy / single-bit / single-cell / kind / shape / dtype / metadata mutations) compared with a structural-equality oracle; exhaustive endpoint-coordinate grid for constructor bounds (random ones also after earlier operations that failed: damaged loads, rejected constructions / drawings / token streams); mazes hashed in other interpreters and shipped here; Hypothesis dataset pairs; dataset pairs differing in one flag / one interior solution cell / one endpoint / walking direction"
 RULE = (
     "pairs: case = (graph, solution, kind of a, mutation producing b); exhaustive single mutations on all 2x2 graphs plus Hypothesis "
     "up to 6x6 (8x8 thorough). bounds: every (start,end) with coordinates in -2..n+1 on every shape <= 3x3 for targeted and solved "
